@@ -335,6 +335,11 @@ def run_case(case, rec, mon=None):
                 rec.count("attributes_reassigned_after_construction")
             else:
                 d = P.Deltas(nd, target_axis=target_axis, concatenate=concatenate, context_window=W, pad_mode=mode, **kwargs)
+            if j % 7 == 0:
+                from ..common import poke
+
+                poke(d)  # attributes read, repr(), ==, hash() before the call: not a use
+                rec.count("objects_inspected_before_apply")
             if j % 4 == 1:
                 # other Deltas objects alive in the same program: same window, higher orders, built after this one
                 alive.append(P.Deltas(nd + 1 + j % 2, context_window=W))
